@@ -100,6 +100,9 @@ def _kernel_fresh(V, A, with_altitude):
 # gravity is inlined (no branches); mat_from_rotvec stays an opaque call (it only feeds the attitude
 # matrix, which is checked for garbage-freeness above but not emitted)
 KEXTRA_FRESH = [(ni, 'mat_from_rotvec', gen._stub_mfr), (ni, 'gravity', gen._pyf(ni.gravity))]
+# any further jitted helper the kernel may be split into is traced through its python function
+KEXTRA_FRESH += [(ni, _n, _o.py_func) for _n, _o in list(vars(ni).items())
+                 if hasattr(_o, 'py_func') and _n not in ('integrate', 'mat_from_rotvec', 'gravity')]
 
 
 @gen.traced(MOD, 'c13_kstep2d_fresh', gen.KPARAMS, fast=('dt', 'th0', 'th1', 'th2', 'dv0', 'dv1', 'dv2'),
